@@ -641,13 +641,21 @@ func (c *Config) serverInit(originalConfig *Config) {
 		}
 	}
 
+	var keys []ticketKey
 	if originalConfig != nil {
 		originalConfig.mutex.RLock()
-		c.sessionTicketKeys = originalConfig.sessionTicketKeys
+		keys = originalConfig.sessionTicketKeys
 		originalConfig.mutex.RUnlock()
 	} else {
-		c.sessionTicketKeys = []ticketKey{ticketKeyFromBytes(c.SessionTicketKey)}
+		keys = []ticketKey{ticketKeyFromBytes(c.SessionTicketKey)}
 	}
+	// SetSessionTicketKeys may run concurrently with the first use of c: write
+	// under the mutex, and keep keys that a rotation has installed meanwhile.
+	c.mutex.Lock()
+	if len(c.sessionTicketKeys) == 0 {
+		c.sessionTicketKeys = keys
+	}
+	c.mutex.Unlock()
 }
 
 func (c *Config) ticketKeys() []ticketKey {
